@@ -271,7 +271,15 @@ def run(ctx):
     # ---- R7.6 builder setters of the override relation store every id they are given
     owa = fx.body("clap_builder::builder::arg::Arg::overrides_with_all")
     ex = [c for c in owa.calls_to(r"Extend(<[^>]*>)?>?::extend$") if expr(owa, c.args[0]) == "self.overrides"]
-    if not ex:
+    # loop form: for name in names { self.overrides.push(name.into()) } — unconditional push of every element
+    pl_ = [c for c in owa.calls_to(r"Vec(<[^>]*>)?::push$") if expr(owa, c.args[0]) == "self.overrides"]
+    if not ex and pl_:
+        for c in pl_:
+            e = expr(owa, c.args[1])
+            cond = [g for g in guard_strs(owa, c.bb) if re.match(r"^[TF]:", g)]
+            res.check(re.fullmatch(r"into\(next\(into_iter\(names\)\)#Some\.0\)", e) is not None and not cond, "R7.6", "overrides_with_all-stores-all", c.where(), "for name in names { overrides.push(name.into()) }",
+                      "overrides_with_all stores %s under %s: some of the given ids are dropped or rewritten" % (e[:80], cond))
+    elif not ex:
         res.violation("R7.6", "overrides_with_all-stores-all", owa.where(), "overrides_with_all no longer extends Arg::overrides")
     for c in ex:
         e = expr(owa, c.args[1])
